@@ -56,7 +56,6 @@ import (
 	"github.com/cloudwego/hertz/internal/bytestr"
 	"github.com/cloudwego/hertz/internal/nocopy"
 	"github.com/cloudwego/hertz/pkg/common/bytebufferpool"
-	"github.com/cloudwego/hertz/pkg/common/compress"
 	"github.com/cloudwego/hertz/pkg/common/config"
 	"github.com/cloudwego/hertz/pkg/common/errors"
 	"github.com/cloudwego/hertz/pkg/common/utils"
@@ -245,15 +244,19 @@ func (req *Request) MultipartForm() (*multipart.Form, error) {
 	if !req.IsBodyStream() {
 		body := req.BodyBytes()
 		if bytes.Equal(ce, bytestr.StrGzip) {
-			// Do not care about memory usage here.
-			var err error
-			if body, err = compress.AppendGunzipBytes(nil, body); err != nil {
-				return nil, fmt.Errorf("cannot gunzip request body: %s", err)
+			// The body is inflated into the form reader, as the stream branch below does: the
+			// reader keeps what it may keep in memory and refuses a form beyond that, whereas
+			// inflating into one slice first lets a small request allocate without bound.
+			zr, zerr := gzip.NewReader(bytes.NewReader(body))
+			if zerr != nil {
+				return nil, fmt.Errorf("cannot gunzip request body: %s", zerr)
 			}
+			f, err = multipart.NewReader(zr, req.multipartFormBoundary).ReadForm(int64(len(body)))
 		} else if len(ce) > 0 {
 			return nil, fmt.Errorf("unsupported Content-Encoding: %q", ce)
+		} else {
+			f, err = ReadMultipartForm(bytes.NewReader(body), req.multipartFormBoundary, len(body), len(body))
 		}
-		f, err = ReadMultipartForm(bytes.NewReader(body), req.multipartFormBoundary, len(body), len(body))
 	} else {
 		bodyStream := req.bodyStream
 		if req.Header.contentLength > 0 {
